@@ -26,6 +26,7 @@ import (
 	"os"
 	"sort"
 	"strings"
+	"sync"
 
 	"cuelabs.dev/go/oci/ociregistry"
 	"cuelabs.dev/go/oci/ociregistry/ociauth"
@@ -53,6 +54,57 @@ type fCase struct {
 	Scope  fScope                       `json:"scope"`  // auth scope in the caller's context
 	Scopes []fScope                     `json:"scopes"` // optional: per-op scopes (random histories)
 	Ops    []Op                         `json:"ops"`
+	// FailAfter >= 0: the backend's repository listing fails after that many items and hands
+	// the name FailWith over together with the error
+	FailAfter int    `json:"failafter"`
+	FailWith  string `json:"failwith"`
+	// Conc > 0 (kind sub): the concurrent stage, that many calls per goroutine
+	Conc int `json:"conc"`
+}
+
+func (c *fCase) UnmarshalJSON(b []byte) error {
+	type plain fCase
+	p := plain{FailAfter: -1}
+	if err := json.Unmarshal(b, &p); err != nil {
+		return err
+	}
+	*c = fCase(p)
+	return nil
+}
+
+var errListing = errors.New("backend: listing interrupted")
+
+// errLister is a backend whose repository listing fails part way through, delivering a
+// (possibly non-empty) name together with the error, as the Seq contract permits.
+type errLister struct {
+	ociregistry.Interface
+	after int
+	with  string
+}
+
+func (l *errLister) Repositories(ctx context.Context, startAfter string) ociregistry.Seq[string] {
+	seq := l.Interface.Repositories(ctx, startAfter)
+	if l.after < 0 {
+		return seq
+	}
+	return func(yield func(string, error) bool) {
+		n := 0
+		stopped := false
+		seq(func(x string, err error) bool {
+			if err != nil || n >= l.after {
+				return false
+			}
+			n++
+			if !yield(x, nil) {
+				stopped = true
+				return false
+			}
+			return true
+		})
+		if !stopped {
+			yield(l.with, errListing)
+		}
+	}
 }
 
 // the errors a table policy can answer with: each identity is a value of its own, so that
@@ -194,20 +246,27 @@ func (s *scopeCap) Referrers(ctx context.Context, repo string, d ociregistry.Dig
 // what the further consumptions delivered is noted for the event.
 type reiter struct {
 	ociregistry.Interface
-	cat   *Catalog
-	again []ev
+	cat     *Catalog
+	again   []ev
+	errwith []string // what was delivered together with an error, pass by pass
 }
 
 const extraPasses = 2
 
 func reiterSeq[T any](r *reiter, seq ociregistry.Seq[T], name func(T) string) ociregistry.Seq[T] {
 	return func(yield func(T, error) bool) {
-		seq(yield)
+		seq(func(x T, err error) bool {
+			if err != nil {
+				r.errwith = append(r.errwith, name(x))
+			}
+			return yield(x, err)
+		})
 		for i := 0; i < extraPasses; i++ {
 			items := []string{}
 			ok := true
 			seq(func(x T, err error) bool {
 				if err != nil {
+					r.errwith = append(r.errwith, name(x))
 					ok = false
 					return true
 				}
@@ -219,13 +278,16 @@ func reiterSeq[T any](r *reiter, seq ociregistry.Seq[T], name func(T) string) oc
 	}
 }
 
-func (r *reiter) take() []ev {
-	out := r.again
+func (r *reiter) take() ([]ev, []string) {
+	out, ew := r.again, r.errwith
 	if out == nil {
 		out = []ev{}
 	}
-	r.again = nil
-	return out
+	if ew == nil {
+		ew = []string{}
+	}
+	r.again, r.errwith = nil, nil
+	return out, ew
 }
 
 func (r *reiter) Repositories(ctx context.Context, startAfter string) ociregistry.Seq[string] {
@@ -321,7 +383,11 @@ func (fr *fRun) runCase(c fCase, gen ev) {
 	ctx := context.Background()
 	mem := ocimem.NewWithConfig(&ocimem.Config{ImmutableTags: c.Imm})
 	rec := &recorder{Interface: mem, cat: fr.back}
-	sc := &scopeCap{Interface: rec}
+	sc := &scopeCap{Interface: &errLister{Interface: rec, after: c.FailAfter, with: c.FailWith}}
+	if c.Conc > 0 {
+		fr.runConc(c, mem)
+		return
+	}
 	cons := [][]string{}
 	var top ociregistry.Interface
 	switch c.Kind {
@@ -383,7 +449,7 @@ func (fr *fRun) runCase(c fCase, gen ev) {
 	if chain == nil {
 		chain = []string{}
 	}
-	fr.write(ev{"op": "reset", "kind": c.Kind, "imm": c.Imm, "pol": pol, "allow": allow, "chain": chain, "case": cm})
+	fr.write(ev{"op": "reset", "kind": c.Kind, "imm": c.Imm, "pol": pol, "allow": allow, "chain": chain, "failafter": c.FailAfter, "failwith": c.FailWith, "case": cm})
 	fr.perKind[c.Kind]++
 
 	// what the backend holds beforehand: written directly, not through the wrapper
@@ -431,7 +497,12 @@ func (fr *fRun) runCase(c fCase, gen ev) {
 			}
 			e["backend"] = calls
 			e["bscopes"] = sc.take()
-			e["again"] = ri.take()
+			again, errwith := ri.take()
+			e["again"] = again
+			e["errwith"] = errwith
+			for _, n := range errwith {
+				fr.name(n)
+			}
 			e["scope"] = projScope(ociauth.ScopeFromContext(cctx))
 			for _, t := range s.Triples {
 				fr.name(t[1])
@@ -443,6 +514,149 @@ func (fr *fRun) runCase(c fCase, gen ev) {
 		for _, e := range drain(&bbuf) {
 			fr.write(e)
 		}
+	}
+}
+
+type concKey struct{}
+
+// concCap is the backend of the concurrent stage: it notes, per call, which goroutine's call it
+// is (a value the caller put in the context), the method, the repository named and the scope found
+// in the context, and delegates.
+type concCap struct {
+	ociregistry.Interface
+	mu   sync.Mutex
+	seen map[string]*concObs
+	ord  []string
+}
+
+type concObs struct {
+	g      int
+	m, r   string
+	bscope ev
+	count  int
+}
+
+func (c *concCap) note(ctx context.Context, m, repo string) {
+	g, _ := ctx.Value(concKey{}).(int)
+	p := projScope(ociauth.ScopeFromContext(ctx))
+	b, _ := json.Marshal(p)
+	k := fmt.Sprintf("%d|%s|%s|%s", g, m, repo, b)
+	c.mu.Lock()
+	defer c.mu.Unlock()
+	if o := c.seen[k]; o != nil {
+		o.count++
+		return
+	}
+	if len(c.ord) >= 120 {
+		return // enough distinct observations
+	}
+	c.seen[k] = &concObs{g: g, m: m, r: repo, bscope: p, count: 1}
+	c.ord = append(c.ord, k)
+}
+
+func (c *concCap) GetBlob(ctx context.Context, repo string, d ociregistry.Digest) (ociregistry.BlobReader, error) {
+	c.note(ctx, "GetBlob", repo)
+	return c.Interface.GetBlob(ctx, repo, d)
+}
+func (c *concCap) ResolveBlob(ctx context.Context, repo string, d ociregistry.Digest) (ociregistry.Descriptor, error) {
+	c.note(ctx, "ResolveBlob", repo)
+	return c.Interface.ResolveBlob(ctx, repo, d)
+}
+func (c *concCap) ResolveTag(ctx context.Context, repo string, tag string) (ociregistry.Descriptor, error) {
+	c.note(ctx, "ResolveTag", repo)
+	return c.Interface.ResolveTag(ctx, repo, tag)
+}
+func (c *concCap) DeleteTag(ctx context.Context, repo string, tag string) error {
+	c.note(ctx, "DeleteTag", repo)
+	return c.Interface.DeleteTag(ctx, repo, tag)
+}
+func (c *concCap) Tags(ctx context.Context, repo string, startAfter string) ociregistry.Seq[string] {
+	c.note(ctx, "ListTags", repo)
+	return c.Interface.Tags(ctx, repo, startAfter)
+}
+func (c *concCap) Referrers(ctx context.Context, repo string, d ociregistry.Digest, at string) ociregistry.Seq[ociregistry.Descriptor] {
+	c.note(ctx, "Referrers", repo)
+	return c.Interface.Referrers(ctx, repo, d, at)
+}
+func (c *concCap) Repositories(ctx context.Context, startAfter string) ociregistry.Seq[string] {
+	c.note(ctx, "ListRepos", "")
+	return c.Interface.Repositories(ctx, startAfter)
+}
+
+// runConc: several goroutines call read, delete-of-nothing and listing methods through ONE
+// Sub view at the same time, each with a (large) scope of its own in its context.
+func (fr *fRun) runConc(c fCase, mem ociregistry.Interface) {
+	const goroutines = 8
+	cc := &concCap{Interface: mem, seen: map[string]*concObs{}}
+	var top ociregistry.Interface = cc
+	for _, p := range fr.chain {
+		top = ocifilter.Sub(top, p)
+	}
+	cj, _ := json.Marshal(c)
+	var cm ev
+	json.Unmarshal(cj, &cm)
+	stripNulls(cm)
+	fr.write(ev{"op": "reset", "kind": "sub", "imm": false, "pol": ev{}, "allow": []string{}, "chain": fr.chain,
+		"failafter": -1, "failwith": "", "case": cm})
+	fr.perKind["conc"]++
+	scopes := make([]ev, goroutines)
+	ctxs := make([]context.Context, goroutines)
+	names := make([]string, goroutines)
+	for g := 0; g < goroutines; g++ {
+		tr := [][]string{{"registry", "catalog", "*"}, {"repository", fmt.Sprintf("../x%d", g), "push"}}
+		for j := 0; j < 40+10*g; j++ {
+			tr = append(tr, []string{"repository", fmt.Sprintf("g%d/r%03d", g, j), []string{"pull", "push"}[j%2]})
+		}
+		ctx := fScope{Triples: tr}.apply(context.Background())
+		scopes[g] = projScope(ociauth.ScopeFromContext(ctx))
+		ctxs[g] = context.WithValue(ctx, concKey{}, g)
+		names[g] = fmt.Sprintf("g%d", g)
+	}
+	d := fr.cat.Contents[0].Digest
+	var wg sync.WaitGroup
+	start := make(chan struct{})
+	panics := make(chan string, goroutines)
+	for g := 0; g < goroutines; g++ {
+		wg.Add(1)
+		go func(g int) {
+			defer wg.Done()
+			defer func() {
+				if p := recover(); p != nil {
+					panics <- fmt.Sprint(p)
+				}
+			}()
+			<-start
+			ctx, r := ctxs[g], names[g]
+			for i := 0; i < c.Conc; i++ {
+				switch (i + g) % 7 {
+				case 0:
+					top.GetBlob(ctx, r, d)
+				case 1:
+					top.ResolveBlob(ctx, r, d)
+				case 2:
+					top.ResolveTag(ctx, r, "t")
+				case 3:
+					top.DeleteTag(ctx, r, "t")
+				case 4:
+					top.Tags(ctx, r, "")(func(string, error) bool { return true })
+				case 5:
+					top.Referrers(ctx, r, d, "")(func(ociregistry.Descriptor, error) bool { return true })
+				case 6:
+					top.Repositories(ctx, "")(func(string, error) bool { return true })
+				}
+			}
+		}(g)
+	}
+	close(start)
+	wg.Wait()
+	close(panics)
+	for p := range panics {
+		fr.write(ev{"op": "panic", "inop": "concurrent stage", "panic": p})
+	}
+	for _, k := range cc.ord {
+		o := cc.seen[k]
+		fr.write(ev{"op": "cscope", "via": "wrapper", "g": o.g, "m": o.m, "r": names[o.g], "br": o.r,
+			"scope": scopes[o.g], "bscope": o.bscope, "count": o.count})
 	}
 }
 
@@ -702,6 +916,7 @@ func filterCmd(args []string) error {
 	prefix := fs.String("prefix", "", "prefix of the Sub view")
 	reposFlag := fs.String("repos", "", "comma-separated backend repositories (cases); random scenarios draw their own")
 	replay := fs.String("replay", "", "replay file: re-execute the scenarios of its reset events")
+	conc := fs.Int("conc", 0, "kind sub: add the concurrent stage, that many calls per goroutine through one view")
 	fs.Parse(args)
 
 	var cases []fCase
@@ -834,12 +1049,17 @@ func filterCmd(args []string) error {
 		kl := strings.Split(*kinds, ",")
 		for i := 0; i < *n; i++ {
 			k := kl[i%len(kl)]
-			c := fCase{Kind: k, Imm: rnd.Intn(3) == 0, Scope: fScope{Triples: [][]string{}}}
+			c := fCase{Kind: k, Imm: rnd.Intn(3) == 0, Scope: fScope{Triples: [][]string{}}, FailAfter: -1}
 			c.Pre = prePopulate(rnd, &back0)
 			ops := randOps(rnd, cat, *steps, "all", false)
 			if k != "sub" && rnd.Intn(2) == 0 {
 				// the checking wrappers hand the caller's context on as it is
 				c.Scope = randScope(rnd, back0.Repos, "x", nil)
+			}
+			c.FailAfter = -1
+			if k != "sub" && rnd.Intn(4) == 0 {
+				c.FailAfter = rnd.Intn(4)
+				c.FailWith = append([]string{""}, back0.Repos...)[rnd.Intn(len(back0.Repos)+1)]
 			}
 			switch k {
 			case "checker":
@@ -891,6 +1111,9 @@ func filterCmd(args []string) error {
 			c.Ops = withOdd
 			cases = append(cases, c)
 		}
+	}
+	if *conc > 0 && *replay == "" && isSub {
+		cases = append(cases, fCase{Kind: "sub", FailAfter: -1, Conc: *conc, Scope: fScope{Triples: [][]string{}}})
 	}
 	// close the universe: a valid caller name addresses a backend repository
 	if isSub {
